@@ -180,8 +180,9 @@ func (h *Handler) HandleMessage(msg stanza.Message, t xmlstream.TokenReadEncoder
 
 	for i.Next() {
 		start, _ := i.Current()
-		if start == nil {
-			// Skip anything that is not an element (eg. whitespace).
+		if start == nil || start.Name.Space != NS {
+			// Skip anything that is not an element (eg. whitespace) or that is not
+			// a receipts payload (other extensions have a <received/> too).
 			continue
 		}
 		switch start.Name.Local {
